@@ -167,6 +167,12 @@ var regexpTemplates = []string{
 	`^%s$`,
 	`\.\.%s`,
 	`^$`,
+	// inline flags: each rule is an expression of its own, a flag set in one rule says nothing about the others
+	`(?i)^%s\.%s$`,
+	`(?i)%s\.%s$`,
+	`(?i:%s)\.%s$`,
+	`(?U)^%s+\.`,
+	`(?s)^.%s$`,
 }
 
 func genRegexp(r *core.RNG) string {
@@ -213,6 +219,18 @@ func genRuleSet(r *core.RNG) ruleSet {
 		}
 		seen[kw] = true
 		rs.Keywords = append(rs.Keywords, kw)
+	}
+	if len(rs.Keywords) > 0 && r.Chance(1, 3) {
+		// the same keyword listed more than once (lists are merged from several sources): still one rule
+		for k := r.Pick(1, 1, 2); k > 0; k-- {
+			rs.Keywords = append(rs.Keywords, rs.Keywords[r.Intn(len(rs.Keywords))])
+		}
+		p := r.Perm(len(rs.Keywords))
+		sh := make([]string, len(rs.Keywords))
+		for i, j := range p {
+			sh[i] = rs.Keywords[j]
+		}
+		rs.Keywords = sh
 	}
 	nr := r.Pick(0, 0, 0, 1, 2, 5)
 	for len(rs.Regexps) < nr {
@@ -455,6 +473,26 @@ func derivedProbes(r *core.RNG, rs *ruleSet) []string {
 			add("x" + x)
 			add(x + "a")
 			add(strings.ToUpper(x))
+		}
+	}
+	// case variants of names the regular expressions are built from: an expression matches other letter case only if
+	// it says so itself
+	flagged := false
+	for _, x := range rs.Regexps {
+		if strings.Contains(x, "(?") {
+			flagged = true
+		}
+	}
+	if flagged {
+		for k := 0; k < 60; k++ {
+			a, b := labels[r.Intn(len(labels))], labels[r.Intn(len(labels))]
+			for _, n := range []string{a + "." + b, "x." + a + "." + b, a + b, a} {
+				add(strings.ToUpper(n))
+				if len(n) > 1 {
+					add(strings.ToUpper(n[:1]) + n[1:])
+					add(n[:len(n)-1] + strings.ToUpper(n[len(n)-1:]))
+				}
+			}
 		}
 	}
 	return out
